@@ -30,7 +30,9 @@ OPTION_SETS = [dict(print_model=pm, display_photos_keyword=dp, ascending=asc, **
                for pm in (True, False) for dp in (True, False) for asc in (False, True)
                for norm in ({}, {"normalize": True}, {"scale": 1}, {"scale": 0.5}, {"scale": 1e-3}, {"scale": 1.0, "normalize": False})]
 INVALID_OPTIONS = [dict(normalize=True, scale=0.5), dict(scale=0), dict(scale=-1), dict(scale=1.5), dict(scale=1 + 1e-9),
-                   dict(normalize=True, scale=1.0, ascending=True), dict(scale=0.0, print_model=False)]
+                   dict(normalize=True, scale=1.0, ascending=True), dict(scale=0.0, print_model=False),
+                   # not numbers of (0, 1] either
+                   dict(scale=float("nan")), dict(scale=float("inf")), dict(scale=float("-inf")), dict(scale=-0.0), dict(scale=float("nan"), ascending=True)]
 
 
 def table_ast(pattern, n, fv, tag):
